@@ -37,13 +37,21 @@ ScnRecvReq(L, s, peerSmall) ==
      default_handler |-> <<[op |-> "resolve"], [op |-> "recv_body"], [op |-> "recv_trailers"]>>,
      steps |-> (IF peerSmall THEN <<SettingsStep("server", 41)>> ELSE <<>>)
                \o <<[op |-> "deliver", sid |-> 0, bytes |-> Frame(1, Sec(ReqBase \o Extra1(s, 167)))], [op |-> "fin", sid |-> 0]>>]
-ScnRecvTrailers(role, L, t, three) ==
+\* split: the trailers are read on the receiving half of a split stream; peerSmall: the peer has advertised a tiny limit of its own
+\* (the receiver's limit is its OWN configured one, whatever the peer advertised and however the stream is used)
+ScnRecvTrailersX(role, L, t, three, split, peerSmall) ==
     LET head == IF role = "server" THEN ReqBase ELSE RespBase
         tr == IF three THEN Extra3(t, 0) ELSE Extra1(t, 0)
-        pre == IF role = "client" THEN <<[op |-> "request", task |-> "r1", prog |-> <<[op |-> "send_request", method |-> GET, uri |-> Uri, fields |-> <<>>], [op |-> "recv_response"], [op |-> "recv_body"], [op |-> "recv_trailers"]>>]>> ELSE <<>>
-    IN [part |-> "R", kind |-> "trailers", role |-> role, cfg |-> [grease |-> FALSE, max_field |-> L], size |-> t, head_size |-> SectionSize(head),
-        default_handler |-> <<[op |-> "resolve"], [op |-> "recv_body"], [op |-> "recv_trailers"]>>,
-        steps |-> pre \o <<[op |-> "deliver", sid |-> 0, bytes |-> Frame(1, Sec(head)) \o Frame(1, Sec(tr))], [op |-> "fin", sid |-> 0]>>]
+        sr == [op |-> "send_request", method |-> GET, uri |-> Uri, fields |-> <<>>]
+        rcv == <<[op |-> "recv_body"], [op |-> "recv_trailers"]>>
+        cprog == IF split THEN <<sr, [op |-> "split", send |-> <<>>, recv |-> <<[op |-> "recv_response"]>> \o rcv]>> ELSE <<sr, [op |-> "recv_response"]>> \o rcv
+        pre == IF role = "client" THEN <<[op |-> "request", task |-> "r1", prog |-> cprog]>> ELSE <<>>
+    IN [part |-> "R", kind |-> "trailers", role |-> role, cfg |-> [grease |-> FALSE, max_field |-> L], size |-> t, head_size |-> SectionSize(head), split |-> split,
+        default_handler |-> (IF split THEN <<[op |-> "resolve"], [op |-> "split", send |-> <<>>, recv |-> rcv]>> ELSE <<[op |-> "resolve"]>> \o rcv),
+        \* (a client's own request, 167 bytes, must still fit the peer's limit)
+        steps |-> (IF peerSmall THEN <<SettingsStep(role, IF role = "client" THEN 170 ELSE 41)>> ELSE <<>>)
+                  \o pre \o <<[op |-> "deliver", sid |-> 0, bytes |-> Frame(1, Sec(head)) \o Frame(1, Sec(tr))], [op |-> "fin", sid |-> 0]>>]
+ScnRecvTrailers(role, L, t, three) == ScnRecvTrailersX(role, L, t, three, FALSE, FALSE)
 ScnRecvResp(L, s) ==
     [part |-> "R", kind |-> "response", role |-> "client", cfg |-> [grease |-> FALSE, max_field |-> L], size |-> s,
      steps |-> <<[op |-> "request", task |-> "r1", prog |-> <<[op |-> "send_request", method |-> GET, uri |-> Uri, fields |-> <<>>], [op |-> "recv_response"], [op |-> "recv_body"], [op |-> "recv_trailers"]>>],
@@ -96,6 +104,7 @@ Next == /\ out = <<>>
            \/ \E L \in LimitsR : \E t \in SweepT(L), three \in BOOLEAN : out' = ScnRecvTrailers("server", L, t, three)
            \/ \E L \in {100, 207} : \E t \in Sweep(L), three \in BOOLEAN : t >= 99 /\ out' = ScnRecvTrailers("client", L, t, three)
            \/ \E L \in {42, 43, 74} : \E t \in Sweep(L) : t >= 33 /\ out' = ScnRecvTrailers("client", L, t, FALSE)
+           \/ \E role \in {"server", "client"}, peerSmall \in BOOLEAN : \E t \in Sweep(207) : t >= 99 /\ out' = ScnRecvTrailersX(role, 207, t, FALSE, TRUE, peerSmall)
            \/ \E L \in ({100} \cup LimitsR) : \E s \in SweepT(L) : s >= 75 /\ out' = ScnRecvResp(L, s)
            \/ \E L \in {0, 41, 42, 43} : out' = ScnRecvResp(L, 75)
            \/ \E L \in LimitsR : \E s \in SweepT(L), when \in {"before", "never", "during"} : out' = ScnSendReq(L, s, when)
